@@ -90,6 +90,44 @@ impl<T> SyncResultReceiver<T> {
     }
 }
 
+/// Runs an action when dropped, unless disarmed first.  An operation's response handler owns one so that an
+/// operation whose handler is dropped without ever being invoked (the client's event loop exited with the
+/// operation still in its channel) still produces a result.
+#[cfg_attr(not(feature="threaded"), allow(dead_code))]
+pub(crate) struct OperationDropGuard {
+    armed: Arc<std::sync::atomic::AtomicBool>,
+    action: Option<Box<dyn FnOnce() + Send + Sync>>
+}
+
+#[cfg_attr(not(feature="threaded"), allow(dead_code))]
+impl OperationDropGuard {
+    pub(crate) fn new(action: Box<dyn FnOnce() + Send + Sync>) -> OperationDropGuard {
+        OperationDropGuard {
+            armed: Arc::new(std::sync::atomic::AtomicBool::new(true)),
+            action: Some(action)
+        }
+    }
+
+    /// Shared switch that disarms the guard from outside the handler that owns it
+    pub(crate) fn switch(&self) -> Arc<std::sync::atomic::AtomicBool> {
+        self.armed.clone()
+    }
+
+    pub(crate) fn disarm(&self) {
+        self.armed.store(false, std::sync::atomic::Ordering::SeqCst);
+    }
+}
+
+impl Drop for OperationDropGuard {
+    fn drop(&mut self) {
+        if self.armed.swap(false, std::sync::atomic::Ordering::SeqCst) {
+            if let Some(action) = self.action.take() {
+                action();
+            }
+        }
+    }
+}
+
 #[cfg_attr(not(feature="threaded"), allow(dead_code))]
 pub(crate) fn new_sync_result_pair<T>() -> (SyncResultReceiver<T>, SyncResultSender<T>) {
     let lock = Arc::new(Mutex::new(None));
